@@ -403,8 +403,10 @@ impl<'a> DataRowIteratorTestData<'a> {
                     EntryIndex::Entry {
                         entry_index,
                         signal_index: _,
-                    } => row_result.entries[*entry_index] = DataEntry::X,
-                    EntryIndex::Default { signal_index: _ } => continue,
+                    } if !self.entry_is_input(*entry_index) => {
+                        row_result.entries[*entry_index] = DataEntry::X
+                    }
+                    _ => continue,
                 }
             }
             row_result.update_output = false;
